@@ -318,6 +318,13 @@ def run(chk: Check):
     if not os.environ.get("C13_KEEP"):
         shutil.rmtree(WORK, ignore_errors=True)
 
+    # tie by regeneration: the ownership functions of _cffi_ownership.py and the tail of TensorMethod.__call__ are
+    # re-translated from /repo on every run as effect programs over a modelled cffi/CPython interface
+    # (coq/model/OwnershipApi.v) and PROVED to perform model/Ownership.v's take_ownership / eval_call transitions
+    # (coq/props/TIE_ownership.v) + self-check against the real functions under real cffi with a recording gc
+    from props._tie import run_tie
+    run_tie(chk, ["ownership"])
+
 
 def replay(chk: Check, payload: dict) -> int:
     err = ensure_interposer()
